@@ -187,6 +187,32 @@ def run(ctx, lean, findings):
                 ctx.disagree('I2 _materialize_template', {'kind': kind, 'value': value, 'termtype': termtype, 'datatype': dt,
                                                            'safe': safe, 'only_printable': onlyp, 'row': row}, mod, impl)
 
+    # ---- (I2, exhaustive part) every special character ALONE in an otherwise plain value, every data-dependent shape ----
+    # (a change that skips a transformation unless some other special character occurs in the column only shows here)
+    cfg0 = configs.setdefault(('', 'no'), mk_config('', 'no'))
+    for ch in cg.LONE + ['\x00', '\x7f', '\x85', 'é', '\u2028', '\U0001F600']:
+        for kind, value in (('reference', 'c1'), ('template', 'x{c1}y'), ('template', 'http://ex.org/{c1}/z')):
+            for termtype in ('literal', 'iri', 'bnode'):
+                if termtype == 'iri' and value == 'x{c1}y':
+                    continue
+                row = {'c1': 'ab' + ch + 'c'}
+                impl = real_template(cfg0, kind, value, termtype, '', row)
+                ctx.case(['I2-lone', kind, value, termtype, ch], nontrivial=True, kind=f'I2 lone {kind}/{termtype}')
+                if drv:
+                    mod = drv.call('template', kind=kind, value=value, termtype=termtype, datatype='', alias='', row=row, safe='',
+                                   only_printable=False, nonprintable=cg.nonprintable_of([row['c1']]))
+                    if mod != impl:
+                        ctx.disagree('I2 _materialize_template (lone special character)',
+                                     {'kind': kind, 'value': value, 'termtype': termtype, 'datatype': '', 'safe': '', 'only_printable': 'no', 'row': row}, mod, impl)
+                if termtype == 'literal' and 'ok' in impl:
+                    body = impl['ok'][1:-1] if impl['ok'].startswith('"') and impl['ok'].endswith('"') else None
+                    want = row['c1'] if kind == 'reference' else 'x' + row['c1'] + 'y' if value == 'x{c1}y' else 'http://ex.org/' + row['c1'] + '/z'
+                    st = parses(f'<http://s> <http://p> {impl["ok"]}', False)
+                    if body is None or st is None or len(st) != 1 or st[0].object.value != want:
+                        ctx.violation(f'literal with a lone {ch!r} is not valid N-Triples or does not decode to the value: {impl["ok"]!r}',
+                                      {'object': {'kind': kind, 'value': value if kind == 'template' else 'c1', 'termtype': 'literal'},
+                                       'rows': [{'c1': row['c1']}], 'fmt': 'N-TRIPLES'})
+
     # ---- (oracle) single-rule mappings through materialize_set, strict parse + decode ---------------------------
     n_or = ctx.budget(60, 1500) * (3 if ctx.escalate else 1)
     d = os.path.join(ctx.tmp, 'or')
